@@ -61,10 +61,7 @@ fn run(ctx: &mut Ctx) {
         let wide_labels = rng.chance(1, 6);
         if wide_labels {
             let suffix = *rng.pick(&["文", "é", "字列", "ß9"]);
-            for st in prog.stmts.iter_mut() {
-                for l in st.labels.iter_mut() { l.push_str(suffix); }
-                match &mut st.k { K::External(l) | K::Fill(PcOp::Label(l)) => l.push_str(suffix), k => if let Some((PcOp::Label(l), _)) = k.pc_operand_mut() { l.push_str(suffix); } }
-            }
+            widen_labels(&mut prog.stmts, suffix);
         }
         let a = analyze(&prog.stmts);
         let style = Style::random(rng);
